@@ -1434,6 +1434,30 @@ def edges(rng, case, idx):
                     viol(['C03', 'C05'], 'C03:no_room_for_the_solvent_accepted', {'kwargs': kw, 'solvent_stored': res.contents.get(water, 0.0)})
                 elif not isinstance(exc, ValueError):
                     viol(['C03', 'C05'], f'C03:refusal_not_ValueError:no_room_for_the_solvent:{type(exc).__name__}', {'kwargs': kw})
+            # (round 17, fourth wave) ... but a total in activity units says nothing about the solvent, and a solvent that really
+            # is 1e-13 of the total is served
+            M.bucket(case['prop'] + '/edge/E31_totals_in_activity_units_and_near_neat_mixtures')
+            amy_u = S.enzyme('amylase', '100 U/mg')
+            for solutes_, kw, want_L in ((amy_u, {'concentration': '0.1 U/mL', 'total_quantity': '10 U'}, 0.1), (amy_u, {'concentration': '10 U/L', 'total_quantity': '100 U'}, 10.0),
+                                         ([amy_u, salt], {'concentration': ['0.05 U/mL', '1 M'], 'total_quantity': '100 U'}, 2.0), (amy_u, {'concentration': '5 U/g', 'total_quantity': '1 kU'}, None),
+                                         (amy_u, {'concentration': '2 U/mol', 'total_quantity': '50 mU'}, None)):
+                res, exc = attempt(lambda: C.create_solution(solutes_, water, **kw))
+                if exc is not None:
+                    viol(['C05', 'C03'], f'C05:feasible_request_refused:total_in_activity_units:{type(exc).__name__}', {'kwargs': kw, 'exc': repr(exc)[:120]})
+                elif want_L is not None and abs(R.measure(res.contents, 'L') - want_L) > 1e-3 * want_L:
+                    viol(['C05'], 'C05:stated_value_not_met:total_in_activity_units', {'kwargs': kw, 'got_L': R.measure(res.contents, 'L'), 'want_L': want_L})
+            for sol_, q_, t_, share in ((glu_, '999.9999999995 kg', '1000 kg', 5e-13), (eth, '999.999999999 L', '1000 L', 1e-12), (salt, '249.999999999975 mol', '250 mol', 1e-13), (glu_, '9.99999999 g', '10 g', 1e-9)):
+                res, exc = attempt(lambda: C.create_solution(sol_, water, quantity=q_, total_quantity=t_))
+                v_, b_ = R.parse_quantity(t_)
+                want_w = share * v_ / R.per(water, b_)           # mol of water
+                if want_w / cf.mol_prefix < 1e3 * cf.q:
+                    continue        # (the solvent is below what the mole storage unit resolves)
+                if exc is not None:
+                    viol(['C05', 'C03'], f'C05:feasible_request_refused:near_neat_mixture:{type(exc).__name__}', {'quantity': q_, 'total': t_, 'solvent_share': share, 'exc': repr(exc)[:120]})
+                else:
+                    got_w = R.canon(water, res.contents.get(water, 0.0))
+                    if abs(got_w - want_w) > 0.05 * want_w:
+                        viol(['C05'], 'C05:total_quantity_not_met:near_neat_mixture', {'quantity': q_, 'total': t_, 'water_mol': got_w, 'expected_mol': want_w})
             M.bucket(case['prop'] + '/edge/E31_a_trace_in_moles_next_to_a_dilute_enzyme')
             amy50, lip3 = S.enzyme('amylase', '50 U/mg'), S.enzyme('lipase', '3 U/ug')
             for enz_, concs, tot in ((amy50, ['1 pg/kg', '10 kU/kg'], '1 kL'), (lip3, ['1 pg/kg', '100 kU/mol'], '10 kg'), (amy50, ['1 pM', '20 U/g'], '100 kg')):
